@@ -2,6 +2,7 @@
 from . import envsim, core
 
 NAME = "envsim"
+KEEP_TAIL = True      # the failing op is the last op of the trace
 
 PROBES = {
     "C01": ["exploit_refused_os_only", "exploit_refused_service_only",
